@@ -78,7 +78,9 @@ func (s bitmap32) Remove(value uint32) {
 func (s bitmap32) Xor(provider Provider[uint32]) {
 	switch typedProvider := provider.(type) {
 	case bitmap32:
-		s.bitmap.Xor(typedProvider.bitmap)
+		// roaring's in-place Xor may xor a bitmap container of its operand in place and then share it with the
+		// receiver, so the operand is handed over as a copy
+		s.bitmap.Xor(typedProvider.bitmap.Clone())
 
 	case Duplex[uint32]:
 		providerCopy := roaring.New()
